@@ -247,8 +247,10 @@ def r4(rr, repo):
             if e.kind == 'store' and e.term == 'self.read_idx':
                 n += 1
                 before = p.events[:p.events.index(e)]
-                reads_ = [i for i, x in enumerate(before) if x.kind == 'call' and (x.term.endswith('.read') or x.term.endswith('.readline'))]
-                refreshed = [x for x in before[(reads_[-1] if reads_ else 0):] if x.kind == 'call' and x.term == 'self.refresh_logfiles']   # a refresh between finding the file exhausted and moving on
+                # the stretch of the path that deals with the file being left: since it was opened / since the previous advance
+                seg = max([i for i, x in enumerate(before) if (x.kind == 'call' and x.term == 'open') or (x.kind == 'store' and x.term == 'self.read_idx')] or [0])
+                reads_ = [i for i, x in enumerate(before) if i >= seg and x.kind == 'call' and (x.term.endswith('.read') or x.term.endswith('.readline'))]
+                refreshed = [x for x in before[(reads_[0] if reads_ else seg):] if x.kind == 'call' and x.term == 'self.refresh_logfiles']   # a refresh between finding the file exhausted and moving on
                 vanished_ = any(k.startswith('raised-in-try@') for k, v in p.pc[:e.pc_len])
                 if refreshed and not vanished_:
                     # the refresh either kept the reader on its (exhausted) file - go one past it - or, the file being gone, already moved it to the first newer
@@ -256,6 +258,13 @@ def r4(rr, repo):
                     ok = 'self.read_file' in e.args[0] or any('self.read_file' in k for k, v in p.pc[refreshed[-1].pc_len:e.pc_len])
                     rr.ob('after a refresh the reader goes one past its file only if the refresh kept that file; if the refresh moved it (file deleted) it continues with the file it was moved to',
                           ok, mod, e.node, witness=e.args[0], key='advance-after-refresh')
+                    # ... and a file the refresh kept is read once more before it is left: the writer may have appended its last record and rolled over between
+                    # the empty read and the rescan; once the rescan shows a newer file this one is complete, so one more read settles it
+                    after_ref = before[before.index(refreshed[-1]):]
+                    reread = any(x.kind == 'call' and (x.term.endswith('.read') or x.term.endswith('.readline')) for x in after_ref)
+                    gone = any(k == 'isnone(self.read_file)' and v is True for k, v in p.pc[refreshed[-1].pc_len:e.pc_len])
+                    rr.ob('a file that is still listed after the refresh is read again before the reader moves past it (nothing appended between the empty read and the rescan is skipped)', reread or gone, mod, e.node,
+                          witness=p.pc_text()[-200:], key='reread-before-leaving')
                 else:
                     rr.ob('the reader index advances by exactly one', e.args[0] == 'self.read_idx + 1', mod, e.node, witness=e.args[0], key=f'advance|{e.args[0][:40]}')
             if e.kind == 'call' and e.term == 'open':
@@ -722,3 +731,36 @@ def r8(rr, repo):
 def r9(rr, repo):
     from .c14 import r6 as c14r6
     c14r6(rr, repo)
+
+
+@rule('C13.R10', "'end' is a place IN the newest file, not past it: seek(('end', ..)) leaves the reader in the last listed file, opened and positioned at its end (so that what the writer appends to that file later is read; "
+                 "a reader parked past the list is only ever shown NEWER files), and the position every log starts from is that same 'end'")
+def r10(rr, repo):
+    mod, fn, paths = fn_paths(repo, 'seek')
+    rr.paths += len(paths)
+    n = 0
+    for p in paths:
+        if not any(k in ("eq('end', pos[0])", "eq(pos[0], 'end')") and v is True for k, v in p.pc):
+            continue
+        some = p.facts.get('truthy(self.logfiles)')
+        vanished = any(k.startswith('raised-in-try@') for k, v in p.pc)
+        stores = [e for e in p.events if e.kind in ('store', 'augstore') and e.term == 'self.read_idx']
+        final = stores[-1].args[0].replace(' ', '') if stores else None
+        if some is True and not vanished:
+            n += 1
+            opens = [e for e in p.events if e.kind == 'call' and e.term == 'open']
+            at_end = [e for e in p.events if e.kind == 'call' and e.term.endswith('.seek') and [a.strip() for a in e.args] in (['0', '2'], ['0', 'os.SEEK_END'], ['0', 'SEEK_END'])]
+            kept = [e for e in p.events if e.kind == 'store' and e.term == 'self.read_file' and e.args[0].startswith('open(')]
+            ok = len(opens) == 1 and opens[0].args[0].replace(' ', '') == 'self.logfiles[-1].path' and opens[0].args[1].strip('\'"') == 'rb' and bool(at_end) and bool(kept) and final == 'len(self.logfiles)-1'
+            rr.ob("seek to 'end' with files present: the newest file is opened read-only, positioned at its end, kept as the read file, and the index names it", ok, mod, (opens[0].node if opens else fn),
+                  witness=f'open: {[e.args for e in opens]}; seek to end: {bool(at_end)}; handle kept: {bool(kept)}; index: {final}', key='end-in-newest-file')
+        elif some is False:
+            rr.ob("seek to 'end' of an empty log: index 0 (== the number of files), nothing opened", final == 'len(self.logfiles)' and not any(e.kind == 'call' and e.term == 'open' for e in p.events), mod, fn, witness=str(final), key='end-empty')
+        elif some is None:
+            rr.ob("seek to 'end' distinguishes a log that has files from an empty one", False, mod, stores[-1].node if stores else fn, witness=f'index: {final}; the number of files is not looked at', key='end-in-newest-file')
+    rr.floor("paths of seek(('end', ..)) with files present", n, 1, mod, fn)
+    imod, ifn, ipaths = fn_paths(repo, '__init__')
+    first = [c for c in q.calls_in(ifn) if U(c.func) == 'self.seek' and not q.guards_of(c, stop=ifn)]
+    plain = [n_ for n_ in walk_scope(ifn) if isinstance(n_, ast.Assign) and any(U(t) == 'self.read_idx' for t in n_.targets) and 'len(' in U(n_.value)]
+    rr.ob("the constructor's default position is seek(('end', ..)), not an index past the list", len(first) == 1 and U(first[0].args[0]).replace('"', "'").startswith("('end',") and not plain, imod,
+          first[0] if first else (plain[0] if plain else ifn), witness=(U(first[0])[:60] if first else '') + (f'; {U(plain[0])[:60]}' if plain else ''), key='default-position-end')
